@@ -530,4 +530,45 @@ theorem two_loads_can_mix :
   simp [runStores, storesOf, storeOrder, Dir.store, wNew, wItem, Dir.getService, Dir.getWorkServiceNames,
     Dir.getWorkServices, AL.get]
 
+/-! ## 5. start-up: the initial publication cannot be overtaken -/
+
+/-- publications stored one after the other leave the directory at the last one -/
+theorem sequential_publications_end_in_last (pubs : List Dir) : ∀ v0 : Dir,
+    runStores v0 (storesOf pubs) = pubs.getLast?.getD v0 := by
+  induction pubs with
+  | nil => intro v0; rfl
+  | cons d ps ih =>
+    intro v0
+    have h4 : runStores v0 (storeOrder.map (fun f => (f, d))) = d := rfl
+    have : storesOf (d :: ps) = storeOrder.map (fun f => (f, d)) ++ storesOf ps := by
+      simp [storesOf]
+    rw [this]
+    simp only [runStores, List.foldl_append] at h4 ⊢
+    rw [h4]
+    have := ih d
+    simp only [runStores] at this
+    rw [this]
+    cases ps with
+    | nil => rfl
+    | cons a t =>
+      cases h : (a :: t).getLast? with
+      | none => simp at h
+      | some x => simp [h]
+
+/-- … so a publication computed *earlier* but stored *later* (the initial one, if a watcher
+goroutine could already publish while it is under way) leaves the directory stale: it ends with
+the older view `p1` although `p2` was computed from more events -/
+theorem overtaken_initial_store_is_stale (v0 p1 p2 : Dir) : runStores v0 (storesOf [p2, p1]) = p1 :=
+  sequential_publications_end_in_last [p2, p1] v0
+
+/-- that cannot happen in the code: in `StartMember` and `StartClient` (calls on the receiver
+expanded in place, whatever the helpers are called) the initial publication is complete before
+the first goroutine that can publish is started.  Facts regenerated from /repo on every run. -/
+theorem initial_publish_before_watch :
+    Cell2v.Gen.C08.startFlow.map (·.1) = ["StartClient", "StartMember"] ∧
+    ∀ e ∈ Cell2v.Gen.C08.startFlow,
+      (e.2.takeWhile (· != "spawn-publisher")).contains "publish" = true ∧
+      e.2.contains "spawn-publisher" = true := by
+  decide
+
 end Cell2v.Props.C08
